@@ -3058,4 +3058,150 @@ theorem blockDiagMatrix_eq (vals : List Rat) (sz : List Nat) (hv : vals.length =
     rw [Nat.zero_add, hsum, ← hRs] at this
     exact this
 
+/-! ### csc = transposed reading -/
+
+theorem length_toDense (A : Csr) : A.toDense.length = A.nrows := by simp [Csr.toDense, Csr.rows]
+
+theorem length_row_toDense (A : Csr) : ∀ row ∈ A.toDense, row.length = A.ncols := by
+  intro row h
+  simp only [Csr.toDense, List.mem_map] at h
+  obtain ⟨es, _, rfl⟩ := h
+  simp [denseRow]
+
+theorem getD_denseRow (n i : Nat) (es : List (Nat × Rat)) (hi : i < n) : (denseRow n es).getD i 0 = entrySum i es := by
+  simp [denseRow, List.getD_eq_getElem?_getD, hi]
+
+/-- scipy's column-wise semantics of a csc matrix is the transpose of the row-wise semantics of the
+    csr matrix with the same arrays -/
+theorem csc_toDense_eq_transpose (C : Csc) : C.toDense = transposeD C.read.toDense C.nrows := by
+  simp only [Csc.toDense, transposeD, Csr.toDense, Csr.rows, List.map_map]
+  apply List.map_congr_left
+  intro i hi
+  apply List.map_congr_left
+  intro j _
+  simp only [Function.comp]
+  have := getD_denseRow C.read.ncols i (C.read.rowEntries j) (List.mem_range.mp hi)
+  rw [this]
+  rfl
+
+theorem transposeD_involutive (M : List (List Rat)) (r c : Nat) (hr : M.length = r)
+    (hc : ∀ row ∈ M, row.length = c) : transposeD (transposeD M c) r = M := by
+  subst hr
+  simp only [transposeD, List.map_map]
+  apply List.ext_getElem
+  · simp
+  · intro i h1 h2
+    simp only [List.getElem_map, List.getElem_range]
+    have hi : i < M.length := h2
+    have hrow := hc M[i] (List.getElem_mem hi)
+    apply List.ext_getElem
+    · simp [hrow]
+    · intro j h3 h4
+      simp [List.getD_eq_getElem?_getD, hi, List.getElem?_eq_getElem (show j < M[i].length from h4)]
+
+theorem read_toDense (C : Csc) : C.read.toDense = transposeD C.toDense C.ncols := by
+  rw [csc_toDense_eq_transpose]
+  exact (transposeD_involutive _ _ _ (length_toDense C.read) (length_row_toDense C.read)).symm
+
+theorem transposeD_append (X Y : List (List Rat)) (r : Nat) :
+    transposeD (X ++ Y) r = List.zipWith (· ++ ·) (transposeD X r) (transposeD Y r) := by
+  simp only [transposeD, List.map_append, List.zipWith_map, List.zipWith_self]
+
+/-! ### boolean masks -/
+
+theorem map_getD_trueIdx {β} (full : List β) (d : β) : ∀ (mask : List Bool) (a : List β) (k : Nat),
+    full.drop k = a → mask.length ≤ a.length →
+    (trueIdxFrom k mask).map (fun i => full.getD i d) = maskSel a mask := by
+  intro mask
+  induction mask with
+  | nil => intro a k _ _; cases a <;> rfl
+  | cons b mask ih =>
+    intro a k hk hl
+    cases a with
+    | nil => simp at hl
+    | cons x a =>
+      have hk' : full.drop (k + 1) = a := by
+        have : full.drop (k + 1) = (full.drop k).drop 1 := by simp [List.drop_drop]
+        rw [this, hk]; rfl
+      have hx : full.getD k d = x := by
+        have : (full.drop k).getD 0 d = x := by rw [hk]; rfl
+        simpa [List.getD_eq_getElem?_getD, List.getElem?_drop] using this
+      have := ih a (k + 1) hk' (by simpa using hl)
+      cases b with
+      | false => simp only [trueIdxFrom, Bool.false_eq_true, if_false, maskSel, this]
+      | true => simp only [trueIdxFrom, if_true, List.map_cons, maskSel, this, hx]
+
+theorem denseToCsr_dense (M : List (List Rat)) (c : Nat) (h : ∀ row ∈ M, row.length = c) :
+    (denseToCsr M c).toDense = M ∧ (denseToCsr M c).WF := by
+  constructor
+  · rw [denseToCsr, toDense_ofRows, List.map_map]
+    conv => rhs; rw [← List.map_id M]
+    apply List.map_congr_left
+    intro row hrow
+    have hl := h row hrow
+    simp only [Function.comp, id]
+    have := denseRow_zip_range row
+    rw [hl] at this
+    exact this
+  · apply WF_ofRows
+    intro r hr e he
+    obtain ⟨row, _, rfl⟩ := List.mem_map.mp hr
+    exact List.mem_range.mp (List.of_mem_zip he).1
+
+theorem transposeD_shape (M : List (List Rat)) (c : Nat) :
+    (transposeD M c).length = c ∧ ∀ row ∈ transposeD M c, row.length = M.length := by
+  constructor
+  · simp [transposeD]
+  · intro row h
+    simp only [transposeD, List.mem_map] at h
+    obtain ⟨j, _, rfl⟩ := h
+    simp
+
+theorem getD_append_left' (r s : List Rat) (j : Nat) (h : j < r.length) : (r ++ s).getD j 0 = r.getD j 0 := by
+  simp [List.getD_eq_getElem?_getD, List.getElem?_append_left h]
+
+theorem getD_append_right' (r s : List Rat) (j : Nat) : (r ++ s).getD (r.length + j) 0 = s.getD j 0 := by
+  simp [List.getD_eq_getElem?_getD, List.getElem?_append_right (Nat.le_add_right _ _)]
+
+theorem getD_replicate_zero (n j : Nat) : (List.replicate n (0 : Rat)).getD j 0 = 0 := getD_replicate n j 0
+
+/-- the dense block diagonal commutes with transposition -/
+theorem transposeD_diagDense (X Y : List (List Rat)) (a b : Nat) (hX : ∀ row ∈ X, row.length = a) :
+    transposeD (diagDense X a Y b) (a + b) = diagDense (transposeD X a) X.length (transposeD Y b) Y.length := by
+  simp only [transposeD, diagDense, List.range_add, List.map_append, List.map_map]
+  congr 1
+  · apply List.map_congr_left
+    intro j hj
+    have hj' : j < a := List.mem_range.mp hj
+    simp only [Function.comp]
+    congr 1
+    · apply List.map_congr_left
+      intro row hrow
+      exact getD_append_left' row _ j (by rw [hX row hrow]; exact hj')
+    · rw [List.eq_replicate_iff]
+      refine ⟨by simp, ?_⟩
+      intro v hv
+      obtain ⟨row, _, rfl⟩ := List.mem_map.mp hv
+      show (List.replicate a 0 ++ row).getD j 0 = 0
+      rw [getD_append_left' (List.replicate a 0) row j (by simpa using hj')]
+      exact getD_replicate_zero a j
+  · apply List.map_congr_left
+    intro j _
+    simp only [Function.comp]
+    congr 1
+    · rw [List.eq_replicate_iff]
+      refine ⟨by simp, ?_⟩
+      intro v hv
+      obtain ⟨row, hrow, rfl⟩ := List.mem_map.mp hv
+      have := getD_append_right' row (List.replicate b 0) j
+      rw [hX row hrow] at this
+      show (row ++ List.replicate b 0).getD (a + j) 0 = 0
+      rw [this]
+      exact getD_replicate_zero b j
+    · apply List.map_congr_left
+      intro row _
+      have := getD_append_right' (List.replicate a 0) row j
+      rw [List.length_replicate] at this
+      exact this
+
 end PorepyVerif.C35
